@@ -194,7 +194,9 @@ fn many<T: Bridge>(vals: &[Val]) -> Vec<T> {
 fn loaded<'a, T: Bridge + 'a>(it: impl Iterator<Item = &'a T>) -> Loaded {
     let mut vals = vec![];
     let mut raw = vec![];
-    for x in it {
+    // zero-sized elements: a huge count costs nothing to load; look at a bounded number
+    let cap = if std::mem::size_of::<T>() == 0 { 1 << 12 } else { usize::MAX };
+    for x in it.take(cap) {
         x.raw_check(&mut raw);
         if !raw.is_empty() {
             // never convert a value with an invalid bit pattern
